@@ -6,12 +6,25 @@ def funcs : List (String × String) := [
   ("framework/module/msgmetadata.go:MsgMetadata.DeepCopy", "c0d2cd14145168fe"),
   ("framework/module/msgmetadata.go:type ConnState", "07a13d2975e5d41f"),
   ("framework/module/msgmetadata.go:type MsgMetadata", "35edae60b069bca5"),
+  ("internal/dsn/dsn.go:GenerateDSN", "cafaf64ea3d645c5"),
+  ("internal/dsn/dsn.go:RecipientInfo.WriteTo", "d9fd7d637aa8aaeb"),
+  ("internal/dsn/dsn.go:ReportingMTAInfo.WriteTo", "77fbdf28a15ed64c"),
+  ("internal/dsn/dsn.go:type Action", "15ada61402c8abb1"),
+  ("internal/dsn/dsn.go:type Envelope", "f0614c26e1fe659a"),
+  ("internal/dsn/dsn.go:type RecipientInfo", "0e279e2fb0ba3aba"),
+  ("internal/dsn/dsn.go:type ReportingMTAInfo", "653f952fbb19e250"),
+  ("internal/dsn/dsn.go:writeHeader", "f4d399f446a887e0"),
+  ("internal/dsn/dsn.go:writeHumanReadablePart", "17b9a08d4f6d92e6"),
+  ("internal/dsn/dsn.go:writeMachineReadablePart", "17ff9620a7504ce3"),
   ("internal/target/queue/queue.go:Queue.Start", "a3de4613def4b988"),
   ("internal/target/queue/queue.go:Queue.deliver", "f9c76cc6fc51885f"),
+  ("internal/target/queue/queue.go:Queue.dispatch", "b74f41bd2cc3ee79"),
+  ("internal/target/queue/queue.go:Queue.emitDSN", "1e8fbe65a4db35c1"),
   ("internal/target/queue/queue.go:Queue.openMessage", "e860a325c84bd4f8"),
   ("internal/target/queue/queue.go:Queue.readDiskQueue", "d542914f9b1ab176"),
   ("internal/target/queue/queue.go:Queue.readMessageMeta", "02d7c83723fce1d9"),
   ("internal/target/queue/queue.go:Queue.storeNewMessage", "b3c9b8f26b968111"),
+  ("internal/target/queue/queue.go:Queue.tryDelivery", "91d36a51cc7d0be5"),
   ("internal/target/queue/queue.go:Queue.updateMetadataOnDisk", "53af3a3781a30de7"),
   ("internal/target/queue/queue.go:queueDelivery.AddRcpt", "1c2d0bd0d73f0bb3"),
   ("internal/target/queue/queue.go:queueDelivery.Body", "606384d3a1d9a91b"),
